@@ -24,7 +24,8 @@
    Deviations (Dev): "DropOnFirstClose" = try_join! (the relay before be0a098), "JoinBoth" = wait for both
    pumps with no time limit, "QuicNoWaitStopped" = QUIC shutdown returns without waiting for the peer (before
    5dfd783; visible together with DropOnFirstClose, which is how the tree was), "NoSinkClose" = forward does not
-   close its sink (together with JoinBoth: the peer then never sees the end).
+   close its sink (together with JoinBoth: the peer then never sees the end), "IgnoreLinkErr" = a pump whose link
+   read failed does not end (after a link failure the outer sides are never told).
 
    The external variables are those of RelayAbs (same names): TLC checks  TcpRelay => RelayAbs  as the action
    property RA!Spec, i.e. every step here is a RelayAbs step or leaves RelayAbs' variables unchanged.       *)
@@ -33,6 +34,7 @@ EXTENDS Naturals, Sequences, FiniteSets, TLC
 CONSTANTS MaxUp, MaxDown,   \* units the application / the target may write
           Link,             \* "tcp" | "tls" | "quic"      (ws/wss behave as tcp/tls at this level)
           Reach,            \* "ok" | "refused"            (refused stands for unresolvable too)
+          Cut,              \* BOOLEAN: the environment may cut the link between client and server once (C15)
           Dev
 
 VARIABLES
@@ -237,6 +239,7 @@ QuicStopped(p) ==
 \* looks like an end-of-stream there and the sink is closed in an orderly way; the client's pumps end with Err.
 SrcRst(p) ==
   /\ pump[p] = "run" /\ relay[Owner(p)] \in {"run", "grace"} /\ rq[Src(p)] = 0 /\ rst[Src(p)]
+  /\ ~("IgnoreLinkErr" \in Dev /\ IsLink(Src(p)))         \* deviation: a failed link read is retried for ever
   /\ IF Owner(p) = "s" \/ "ClientSwallowsErr" \in Dev
        THEN /\ fin' = [fin EXCEPT ![Snk(p)] = IF fin[Snk(p)] = 0 /\ ~rst[Snk(p)] THEN 1 ELSE fin[Snk(p)]]
             /\ pump' = [pump EXCEPT ![p] = "closed"]
@@ -314,13 +317,25 @@ GraceTimeout(r) ==
   /\ UNCHANGED <<absVars, pump, noise>>
 
 -----------------------------------------------------------------------------
+(* C15: the link between client and server fails.  Both link connections are reset (a middlebox or a network that
+   goes away; on a QUIC link: silence, then the idle timeout reports the connection lost): what is in flight on the
+   link is gone and both link endpoints see a reset once they have drained what had arrived.  On QUIC what had
+   arrived but was not read yet is gone too.                                                                       *)
+LinkCut ==
+  /\ Cut /\ phase = "open" /\ ~fault
+  /\ RA!Fault
+  /\ sq' = [sq EXCEPT ![2] = 0, ![5] = 0]
+  /\ rq' = IF Link = "quic" THEN [rq EXCEPT ![2] = 0, ![5] = 0] ELSE rq
+  /\ rst' = [rst EXCEPT ![2] = TRUE, ![5] = TRUE]
+  /\ fin' = [fin EXCEPT ![2] = IF fin[2] >= 2 THEN fin[2] ELSE 0, ![5] = IF fin[5] >= 2 THEN fin[5] ELSE 0]
+  /\ UNCHANGED <<ep, pump, relay, noise>>
 
 OpenFlow ==
   /\ phase = "idle"
   /\ RA!Open(1, Reach)
   /\ UNCHANGED desVars
 
-Env == OpenFlow \/ AppWrite \/ TgtWrite \/ (\E h \in {"fin", "close", "rst"} : AppClose(h) \/ TgtClose(h))
+Env == OpenFlow \/ AppWrite \/ TgtWrite \/ (\E h \in {"fin", "close", "rst"} : AppClose(h) \/ TgtClose(h)) \/ LinkCut
 Sys == \/ Internal \/ Noise
        \/ AppRead \/ AppSeeEnd \/ TgtRead \/ TgtSeeEnd
        \/ \E r \in {"c", "s"} : GraceTimeout(r)
@@ -339,6 +354,7 @@ Spec == Init /\ [][Next]_vars /\ Fair
 \* refinement: every step is a step of the abstract relay (or invisible to it)
 AbsNext == \/ RA!Open(1, Reach) \/ RA!AppWrite(1) \/ RA!TgtWrite(1)
            \/ \E h \in {"fin", "close", "rst"} : RA!AppClose(h) \/ RA!TgtClose(h)
+           \/ RA!Fault
            \/ RA!Dial(1) \/ RA!DeliverUp(1, TRUE) \/ RA!DeliverDown(1, TRUE)
            \/ \E h \in {"eof", "rst"} : RA!AppEnd(h) \/ RA!TgtEnd(h)
 RefinesAbs == [][AbsNext]_absVars
@@ -347,6 +363,10 @@ RefinesAbs == [][AbsNext]_absVars
 PromptAppEnd == (tgtClosed # "no" /\ appClosed = "no") ~> (appSaw # "no" \/ appClosed # "no")
 PromptTgtEnd == (appClosed # "no" /\ dials # <<>> /\ tgtClosed = "no") ~> (tgtSaw # "no" \/ tgtClosed # "no")
 Released == (appClosed # "no" \/ tgtClosed # "no") ~> (relay.c = "dropped" /\ relay.s = "dropped")
+\* C15: after a link failure both outer sides observe an end and both processes let go of the flow
+FaultAppEnd == fault ~> (appSaw # "no" \/ ep["A"] = "dropped")
+FaultTgtEnd == (fault /\ dials # <<>>) ~> (tgtSaw # "no" \/ ep["T"] = "dropped")
+FaultReleased == fault ~> (relay.c = "dropped" /\ relay.s = "dropped")
 RefusedEnds == (Reach # "ok" /\ sentUp > 0) ~> (appSaw # "no" \/ appClosed # "no")
 
 TypeOK == /\ \A c \in Chan : sq[c] \in 0..(MaxUp + MaxDown) /\ rq[c] \in 0..(MaxUp + MaxDown) /\ fin[c] \in 0..3
